@@ -2,9 +2,10 @@
 //!
 //! Leaves (depth 0): `u8`, `bool`, `T`, `U`, `a::P`, `()`, `a::L<'static>`, `a::L<'a>`, `a::L<'_>`,
 //! `a::K<8>`, `fn()`.
-//! Unary constructors (FULL, 23): `&`/`&mut` x {'static, 'a, 'b, elided, '_} (10), `(_,)`, `[_]`,
+//! Unary constructors (FULL, 25): `&`/`&mut` x {'static, 'a, 'b, elided, '_} (10), `(_,)`, `[_]`,
 //! `[_; 1]`, `[_; 2]`, `*const _`, `*mut _`, `a::Q<_>`, `a::M<'a, _>`, `fn(_)`, `fn() -> _`,
-//! `fn(x: _)`, `unsafe extern "C" fn(_)`.
+//! `fn(x: _)`, `unsafe fn(_)`, `extern "C" fn(_)`, `unsafe extern "C" fn(_)` (the two header flags
+//! vary independently, so that a matcher confusing "either differs" with "both differ" is seen).
 //! Binary constructors (3): `(_, _)`, `a::R<_, _>`, `fn(_) -> _`.
 //! NARROW alphabet (used below binary nodes past depth 1 so that the universe stays enumerable):
 //! leaves {`u8`, `T`, `U`, `a::P`}, unary {`&_`, `&mut _`, `*mut _`, `(_,)`, `a::Q<_>`}, no binary.
@@ -28,7 +29,8 @@ pub enum U1 {
     Fn1,
     FnRet,
     FnNamed,
-    FnUnsafeC,
+    /// fn(_) with header flags (is_unsafe, c_abi)
+    FnHeader(bool, bool),
 }
 
 #[derive(Clone, Copy, Debug)]
@@ -64,22 +66,26 @@ impl U1 {
             U1::Fn1 => S::Fn {
                 inputs: vec![(None, x)],
                 output: None,
-                unsafe_c: false,
+                is_unsafe: false,
+                c_abi: false,
             },
             U1::FnRet => S::Fn {
                 inputs: vec![],
                 output: Some(Box::new(x)),
-                unsafe_c: false,
+                is_unsafe: false,
+                c_abi: false,
             },
             U1::FnNamed => S::Fn {
                 inputs: vec![(Some("x".into()), x)],
                 output: None,
-                unsafe_c: false,
+                is_unsafe: false,
+                c_abi: false,
             },
-            U1::FnUnsafeC => S::Fn {
+            U1::FnHeader(u, c) => S::Fn {
                 inputs: vec![(None, x)],
                 output: None,
-                unsafe_c: true,
+                is_unsafe: *u,
+                c_abi: *c,
             },
         }
     }
@@ -96,7 +102,8 @@ impl U2 {
             U2::FnArgRet => S::Fn {
                 inputs: vec![(None, x)],
                 output: Some(Box::new(y)),
-                unsafe_c: false,
+                is_unsafe: false,
+                c_abi: false,
             },
         }
     }
@@ -124,7 +131,8 @@ pub fn leaves() -> Vec<S> {
         S::Fn {
             inputs: vec![],
             output: None,
-            unsafe_c: false,
+            is_unsafe: false,
+                c_abi: false,
         },
     ]
 }
@@ -158,7 +166,9 @@ pub fn unary_full() -> Vec<U1> {
         U1::Fn1,
         U1::FnRet,
         U1::FnNamed,
-        U1::FnUnsafeC,
+        U1::FnHeader(true, false),
+        U1::FnHeader(false, true),
+        U1::FnHeader(true, true),
     ]);
     v
 }
